@@ -24,7 +24,7 @@ RULE = ("six streams. parse: arbitrary strings (grammar names, their one-edit ne
         "canonical text, re-parse equal; order: pairs (<, >, ==, equal objects hash equally); sorted: same-shape lists; range: arbitrary range texts x random "
         "sequences of read accessors (len, iteration, as_list, as_set) against the model; range_spec: grammar ranges -> the base interface "
         "with the iterated component replaced by each listed value, once, ascending. non-trivial = a successful parse (distinct by shape and "
-        "whether the text was already canonical), a pair whose numeric and lexical orders differ, an expansion with >= 2 parts.")
+        "whether the text was already canonical), a pair whose numeric and lexical orders differ, an expansion with >= 2 parts. Every range case is also run with reverse=True and must read the same (as_list turned round).")
 EXHAUSTIVE = {"quick": True, "thorough": True}
 TRUSTED = [
     "Coq 8.16.1 kernel incl. vm_compute",
@@ -532,7 +532,20 @@ def run_range(case):
         r = CiscoRange(case["text"], result_type=(str if case["rt"] == "str" else None))
     except BaseException:
         return None
-    return [_read(r, n) for n in case["readers"]]
+    out = [_read(r, n) for n in case["readers"]]
+    # the same text with reverse=True: only as_list() is turned round (descending); the stored members and every other
+    # reader -- before and after reading -- are as without the option
+    try:
+        rr = CiscoRange(case["text"], result_type=(str if case["rt"] == "str" else None), reverse=True)
+    except BaseException:
+        return ["raise"] * len(out) if out else out
+    for i, n in enumerate(case["readers"]):
+        v = _read(rr, n)
+        if n == "R_as_list" and v[0] == "list":
+            v = ["list", v[1][::-1]]
+        if v != out[i]:
+            out[i] = ["list", ["<with reverse=True this reader answers differently>"]]       # never what the model says
+    return out
 
 
 def routlit(o):
